@@ -524,3 +524,56 @@ def _check_R(obs, new, M, src, dst, s0, s1, d0, d1, excl, args, method):
             ok = got * fv <= fM * (1 + Fraction(1, 10**12)) and (got + 1) * fv > fM * (1 - Fraction(1, 10**12)) and got < md
         if not ok:
             obs.bad("C09/multi-disp", f"{method}: multi_disp {md} with volume {v} and max_volume {M} -> {got}")
+
+
+def classes_from_values(case):
+    """Validity classes computed from the argument values alone (used by the fuzz campaign)."""
+    M = case["M"]
+    out = {}
+
+    def text32(v):
+        return "invalid" if (";" in v or len(v) > 32) else "valid"
+
+    for k, v in case["args"].items():
+        v = _val(v)
+        if k in ("rack_label", "src_rack_label", "dst_rack_label"):
+            out[k] = "invalid" if (";" in v or len(v) > 32) else ("valid" if len(v) >= 1 else "undet")
+        elif k in ("rack_id", "rack_type", "src_rack_id", "src_rack_type", "dst_rack_id", "dst_rack_type"):
+            out[k] = text32(v)
+        elif k in ("liquid_class", "tube_id"):
+            out[k] = "invalid" if ";" in v else "valid"
+        elif k == "forced_rack_type":
+            out[k] = "invalid" if ";" in v else ("valid" if len(v) <= 32 else "undet")
+        elif k == "position":
+            if isinstance(v, int):
+                out[k] = "valid" if v >= 1 else ("undet" if v == 0 else "invalid")
+            else:
+                out[k] = "invalid" if v != int(v) or v < 0 else "undet"
+        elif k == "volume":
+            if isinstance(v, float) and (math.isnan(v) or math.isinf(v)):
+                out[k] = "invalid"
+            elif v < 0 or v > M or v > 7158278:
+                out[k] = "invalid"
+            elif case["method"] == "reagent_distribution" and v < 0.01:
+                out[k] = "undet"
+            else:
+                out[k] = "valid"
+        elif k == "tip":
+            items = v if isinstance(v, list) else [v]
+            ok = all(x == "any" and not isinstance(v, list) or (isinstance(x, str) and x.startswith("T")) or (isinstance(x, int) and 1 <= x <= 8) for x in items)
+            out[k] = "valid" if ok else "invalid"
+        elif k == "direction":
+            out[k] = "valid" if v in ("left_to_right", "right_to_left") else "invalid"
+        else:
+            out[k] = "valid"
+    if case["method"] == "reagent_distribution":
+        rng = case["range"]
+        ex = case.get("exclude") or []
+        out["exclude_wells"] = "valid" if all(rng["dst_start"] <= e <= rng["dst_end"] for e in ex) else "invalid"
+    return out
+
+
+def extra_campaign(tier, seed, shard, nshards, st, known):
+    from vf.fuzzrun import campaign
+
+    campaign(PID, tier, seed, shard, nshards, st, known, runs=20000, seeds_corpus=[b"\x00\x00\x05plate\x01\x10\x00\x02LC\x01", b"\x00\x02\x03src\x03dst\x00\x64\x00\x01"])
